@@ -58,3 +58,84 @@ def receive_handlers(prog, sem):
                 toks.append(tk)
         out.setdefault((tuple(hooks), tuple(toks)), []).append(v)
     return vs, h, out
+
+
+# ----------------------------------------------------------------------------------------
+# withdraw path (C01, C06, C08)
+
+def history_readers(sem, visits):
+    """paths of functions that read the unbond-history map directly"""
+    out = set()
+    for v in visits:
+        for (bb, kind, cell, key, val, e) in sem.storage_sites(v.be):
+            if cell == HISTORY and kind == "read" and bb in v.blocks:
+                out.add(v.body.path)
+    return out
+
+
+def history_writers(sem, visits):
+    out = set()
+    for v in visits:
+        for (bb, kind, cell, key, val, e) in sem.storage_sites(v.be):
+            if cell == HISTORY and kind == "write" and bb in v.blocks:
+                out.add(v.body.path)
+    return out
+
+
+def release_loops(sem, visits):
+    """loops that walk the history from State.last_processed_batch + 1:
+    [(visit, reader call bb, key expr (function-local), [in-loop call blocks other than the reader])]"""
+    w = sem.w
+    readers = history_readers(sem, visits)
+    out = []
+    for v in visits:
+        if v.body.kind == "closure":
+            continue
+        for blk in v.body.calls():
+            if blk.idx not in v.blocks:
+                continue
+            e = v.be.ev_call(blk.idx, blk.term)
+            if e.op != "call" or e.info not in readers or not v.be.cfg.in_loop(blk.idx):
+                continue
+            key = e.args[1]
+            from ..expr import find
+            kn = w.norm(v.resolve(key))
+            if not find(kn, lambda y: sem.label(y) == stored(STATE, "last_processed_batch")):
+                continue
+            body_calls = []
+            for b2 in v.body.calls():
+                if b2.idx in v.blocks and b2.idx != blk.idx and v.be.cfg.in_loop(b2.idx):
+                    body_calls.append(b2.idx)
+            out.append((v, blk.idx, key, body_calls))
+    return out
+
+
+def release_guard_preds(sem, vis, key, readers):
+    """the three continuation conditions of a release loop as fact predicates:
+    history entry exists, entry.time <= now - unbonding_period, entry not yet released"""
+    w = sem.w
+    kid = w.ident(key, expand_ws=False)
+
+    def is_entry(x, resolve=None):
+        """x is read(key)!ok (the entry of this iteration)"""
+        x = w.ident(x, expand_ws=False)
+        if x.op == "proj":
+            x = x.args[0]
+        return x.op == "call" and x.info in readers and w.ident(x.args[1], expand_ws=False) == kid
+
+    def exists(f, resolve):
+        return f[0] == "variant" and f[2] == "Ok" and is_entry(f[1])
+
+    def matured(f, resolve):
+        if f[0] == "cmp" and f[1] == "Le":
+            a = f[2]
+            if a.op == "field" and a.info[0] == "time" and is_entry(a.args[0]):
+                b = w.norm(resolve(f[3]))
+                if b.op == "bin" and b.info == "Sub":
+                    return sem.label(b.args[0]) == ("env", "block", "time") and sem.label(b.args[1]) == stored(PARAMS, "unbonding_period")
+        return False
+
+    def unreleased(f, resolve):
+        return f[0] == "truth" and f[2] is False and f[1].op == "field" and f[1].info[0] == "released" and is_entry(f[1].args[0])
+
+    return {"exists": exists, "time <= now - unbonding_period": matured, "not released": unreleased}
